@@ -123,6 +123,8 @@ def run(ctx):
     repo = ctx.repo
     _no_memoised_hash_on_mutable(ctx, repo)
     _from_op_list_unitary_guard(ctx, repo)
+    shared.act_on_routes_qubits_rule(ctx, 'C13.l', floor=3)
+    ctx.decided.append('C13.l every state update in an _act_on_ is routed through the qubits the gate is applied to')
     ctx.decided += [
         'C13.a tableau update rules == Pauli conjugation tables of the textbook gates, for every exponent class, over the complete input domain',
         'C13.b rowsum phase function g == Pauli product phase; row decoder == Aaronson-Gottesman encoding',
